@@ -30,6 +30,9 @@ package floodsub
 //@   nosweep nil-deref
 //@   requires authenticPub(pkt, pktInner)
 //@   assert at call go.handleValidMessage$1: channelID == old(pktInner.Channel) && atlock((channelID in m.channels) && (ss in m.channels[channelID])) && ss != nil && ss.channelID == channelID
+// C28 (de-duplication): a packet goes on to delivery and forwarding only in the one activation whose
+// cache operation inserted its message ID while it was absent (an atomic test-and-set).
+//@   assert at call pubmessage.NewMessage: cacheWon[msgId]
 //@   assert at call go.handleValidMessage$1: msg != nil && msg.pktInner == pktInner && msg.peerID == b58dec(pkt.FromPeerId)
 
 // The spawned goroutine hands exactly that message object to each handler.
@@ -37,3 +40,23 @@ package floodsub
 //@   noframe
 //@   nosweep nil-deref
 //@   assert at call funcvalue: istype(arg0, ptr(pubmessage.Message)) && unboxed(arg0, ptr(pubmessage.Message)) == msg
+
+// ---- C28: forwarding ----
+// Every registered peer stream is registered under its own (peer, link) tuple.
+//@ lockinv FloodSub.mtx: self.peers != nil
+//@ lockinv FloodSub.mtx: forall t pubsub.PeerLinkTuple trigger dom(self.peers, t) :: (t in self.peers) ==> self.peers[t] != nil && self.peers[t].tpl == t
+
+// Queuing a packet for a peer stream (or giving up when the stream's context ends) touches no tables.
+//@ func (*streamHandler).writePacket
+//@   nosweep nil-deref
+
+// A message is forwarded only to peer streams that subscribed to its channel, never to the peer that
+// published it and never to the peer it was received from.
+//@ func (*FloodSub).execPublish
+//@   noframe
+//@   nosweep nil-deref
+//@   requires pubMsg != nil && pubMsg.msg != nil
+// (tosend is filled only with tuples of the channel's subscriber set; receivers are taken from tosend)
+//@   loop 1 invariant forall t pubsub.PeerLinkTuple trigger dom(tosend, t) :: (t in tosend) ==> (t in peerChannels)
+//@   assert at call (*streamHandler).writePacket: recv.tpl.PeerID != prevHopPeerID && b58enc(recv.tpl.PeerID) != pubMsg.msg.FromPeerId
+//@   assert at call (*streamHandler).writePacket: recv.tpl in tosend
